@@ -2,7 +2,7 @@
 # usage: seed_run.sh <PROP>-<mN> [extra check args]   runs the property's quick check against the patch
 # in a scratch worktree (VP_REPO), writes /verif/seeded/<PROP>-<mN>/check.log
 S=$1; shift
-P=${S%%-*}
+P=${SEED_PROP:-${S%%-*}}
 D=/verif/seeded/$S
 WT=/tmp/se/$S
 mkdir -p /tmp/se
